@@ -360,12 +360,12 @@ def observe(case: dict) -> dict:
             if case["q"]:
                 names.append(run.program(case["q"], case["start"], e))
         builds.append(names)
+        nodes += run.nodes()    # before a union: de-duplication rewires the nodes in place
         if case.get("union"):   # the union of the source and of what the programs built (de-duplicates, in place)
             pre, uni, un = union(run, case["union"], [e[case["start"]]] + [a for a in run.finals if a is not None])
             pres += pre
             unis += uni
             uninames.append(un)
-        nodes += run.nodes()
         steps += run.steps
     # the same node may be listed by both builds only if it is the same description
     uniq = []
